@@ -307,7 +307,14 @@ def metamodel_export_tofile(metamodel, f, renderer=None):
     if renderer is None:
         renderer = DotRenderer()
     f.write(renderer.get_header())
-    classes = get_unified_classes(metamodel)
+    # Iterating the meta-model yields the classes of the main grammar and of
+    # the grammars it imports directly. Add those of transitive imports.
+    all_classes = list(metamodel)
+    for namespace in getattr(metamodel, "namespaces", {}).values():
+        for cls in namespace.values():
+            if cls not in all_classes:
+                all_classes.append(cls)
+    classes = get_unified_classes(all_classes)
     classes = [c for c in classes if c.fqn not in ALL_TYPE_NAMES]
     for cls in classes:
         if cls.name not in ALL_TYPE_NAMES:
